@@ -405,3 +405,32 @@ if __name__ == "__main__":
         print(json.dumps(d2, indent=1))
     print(dict(g.stats))
     run.close()
+
+
+# ---------------------------------------------------------------------------------------------------------------------
+# Source-text tie of the sweeper driver loops.  The harness calls the real checkTimeTimeOut / checkTimeExpried but
+# replays the per-second driver loops of checkTimeOut / checkExpried itself (sweepT / sweepE in zz_verif_engine.go,
+# ASweepT / ASweepE in the model); the loops in the source must therefore be exactly the ones transcribed there.
+SWEEPER_LOOPS = {
+    "checkTimeOut": "for self.status != STATE_CLOSE { checkTimeoutTime := self.checkTimeoutTime now := self.currentTime "
+                    "self.checkTimeoutTime = now + 1 for checkTimeoutTime <= now { for i := uint16(0); i < self.managerMaxGlocks; i++ { "
+                    "go self.checkTimeTimeOut(checkTimeoutTime, now, i, doTimeoutLockQueues[i]) } checkTimeoutTime++ } <-waiter }",
+    "checkExpried": "for self.status != STATE_CLOSE { checkExpriedTime := self.checkExpriedTime now := self.currentTime "
+                    "self.checkExpriedTime = now + 1 for checkExpriedTime <= now { for i := uint16(0); i < self.managerMaxGlocks; i++ { "
+                    "go self.checkTimeExpried(checkExpriedTime, now, i, doExpriedLockQueues[i]) } checkExpriedTime++ } <-waiter }",
+}
+
+
+def sweeper_tie(repo):
+    """[] when the driver loops in server/db.go are the transcribed ones, else a list of (function, found text)"""
+    import re
+    src = open(os.path.join(repo, "server", "db.go")).read()
+    bad = []
+    for fn, want in SWEEPER_LOOPS.items():
+        m = re.search(r"^func \(self \*LockDB\) %s\(waiter chan struct\{\}\) \{\n(.*?)^\}\n" % fn, src, flags=re.S | re.M)
+        body = " ".join(m.group(1).split()) if m else ""
+        i = body.find("for self.status != STATE_CLOSE")
+        got = body[i:] if i >= 0 else body
+        if got != want:
+            bad.append((fn, got[:600]))
+    return bad
